@@ -260,7 +260,7 @@ A(V("c10-cache-conditional-reset", "C10", "varLib/models.py", "        self.reve
 A(V("c02-fvar-not-all-benign", "C02", "ttLib/tables/_f_v_a_r.py", "        includePostScriptNames = any(\n            instance.postscriptNameID != 0xFFFF for instance in self.instances\n        )", "        includePostScriptNames = not all(\n            instance.postscriptNameID == 0xFFFF for instance in self.instances\n        )", None, expect=0))
 A(V("c15-sbs-treeheight", "C15", "misc/iftSparseBitSet.py", "    while capacity <= maxValue:", "    while capacity < maxValue:", "SBS"))
 A(V("c15-sbs-header-mask", "C15", "misc/iftSparseBitSet.py", "    height = (headerByte >> 2) & 0x1F", "    height = (headerByte >> 2) & 0x0F", "SBS"))
-A(V("c15-sbs-le32", "C15", "misc/iftSparseBitSet.py", "            self.data.append((value >> 16) & 0xFF)\n            self.data.append((value >> 24) & 0xFF)", "            self.data.append((value >> 24) & 0xFF)\n            self.data.append((value >> 16) & 0xFF)", None, expect=0))
+A(V("c15-sbs-le32", "C15", "misc/iftSparseBitSet.py", "            self.data.append((value >> 16) & 0xFF)\n            self.data.append((value >> 24) & 0xFF)", "            self.data.append((value >> 24) & 0xFF)\n            self.data.append((value >> 16) & 0xFF)", "SBS"))
 A(V("c15-txt-nibbles", "C15", "misc/textTools.py", "        r = r + h[(i >> 4) & 0xF] + h[i & 0xF]", "        r = r + h[i & 0xF] + h[(i >> 4) & 0xF]", "TXT-pair"))
 A(V("c15-txt-pad", "C15", "misc/textTools.py", '            data += b"\\0" * (size - remainder)', '            data += b"\\0" * remainder', "TXT-pair"))
 A(V("c15-agl-lower", "C15", "agl.py", "    if any(c >= 0xD800 and c <= 0xDFFF for c in chars):", "    if any(c > 0xD800 and c <= 0xDFFF for c in chars):", "AGL-sur"))
@@ -331,3 +331,24 @@ A(V("s3-postmerge-guard", "C18", "merge/layout.py", "                and GDEF.ta
 A(V("s3-benign-early-return", ["C01", "C16"], "ttLib/ttFont.py", "        elif self.reader and tag in self.reader:\n            log.debug(\"Reading '%s' table from disk\", tag)\n            return self.reader[tag]\n        else:\n            raise KeyError(tag)", "        if not self.reader or tag not in self.reader:\n            raise KeyError(tag)\n        log.debug(\"Reading '%s' table from disk\", tag)\n        return self.reader[tag]", None, expect=0))
 A(V("s3-benign-alias", ["C04", "C20"], "ttLib/sfnt.py", "        head = self.tables[\"head\"]\n        if head.length < 12:", "        headEntry = self.tables[\"head\"]\n        head = headEntry\n        if head.length < 12:", None, expect=0))
 A(V("s3-benign-epoch-arms", "C16", "misc/timeTools.py", "    if source_date_epoch is not None:\n        return int(source_date_epoch) - epoch_diff\n    return int(time.time() - epoch_diff)", "    if source_date_epoch is None:\n        return int(time.time() - epoch_diff)\n    return int(source_date_epoch) - epoch_diff", None, expect=0))
+# ---- session 3b: DEAD-STORE ---------------------------------------------------
+_VSI_OLD = '        if hasattr(private, "vsindex"):\n            if private.vsindex in vsindexMapping:\n                private.vsindex = vsindexMapping[private.vsindex]\n'
+A(V("s3-dead-store-vsindex", "C08", "varLib/instancer/__init__.py", _VSI_OLD, '        if hasattr(private, "vsindex"):\n            vsindex = private.vsindex\n            if vsindex in vsindexMapping:\n                vsindex = vsindexMapping[vsindex]\n', "DEAD-STORE"))
+A(V("s3-dead-store-benign", "C08", "varLib/instancer/__init__.py", _VSI_OLD, '        if hasattr(private, "vsindex"):\n            vsindex = private.vsindex\n            if vsindex in vsindexMapping:\n                vsindex = vsindexMapping[vsindex]\n                private.vsindex = vsindex\n', None, expect=0))
+# ---- F5-half (short offset arrays) ------------------------------------------------
+A(V("c02-half-loca-limit", "C02", "ttLib/tables/_l_o_c_a.py", "if max_location < 0x20000 and all(", "if max_location <= 0x20000 and all(", "F5-half"))
+A(V("c02-half-loca-even", "C02", "ttLib/tables/_l_o_c_a.py", "if max_location < 0x20000 and all(l % 2 == 0 for l in self.locations):", "if max_location < 0x20000:", "F5-half"))
+A(V("c02-half-loca-format", "C02", "ttLib/tables/_l_o_c_a.py", 'locations = array.array("I", self.locations)\n            ttFont["head"].indexToLocFormat = 1', 'locations = array.array("I", self.locations)\n            ttFont["head"].indexToLocFormat = 0', "F5-half"))
+A(V("c02-half-gvar-limit", "C02", "ttLib/tables/_g_v_a_r.py", "if max(offsets) <= 0xFFFF * 2:", "if max(offsets) <= 0xFFFF * 2 + 2:", "F5-half"))
+A(V("c02-half-loca-benign-swap", "C02", "ttLib/tables/_l_o_c_a.py", '        if max_location < 0x20000 and all(l % 2 == 0 for l in self.locations):\n            locations = array.array("H")\n            for location in self.locations:\n                locations.append(location // 2)\n            ttFont["head"].indexToLocFormat = 0\n        else:\n            locations = array.array("I", self.locations)\n            ttFont["head"].indexToLocFormat = 1\n', '        if max_location >= 0x20000 or not all(l % 2 == 0 for l in self.locations):\n            locations = array.array("I", self.locations)\n            ttFont["head"].indexToLocFormat = 1\n        else:\n            locations = array.array("H")\n            for location in self.locations:\n                locations.append(location // 2)\n            ttFont["head"].indexToLocFormat = 0\n', None, expect=0))
+A(V("c04-searchrange-formula", "C04", "ttLib/ttFont.py", "    searchRange = (2**exponent) * itemSize\n", "    searchRange = (2**exponent) * itemSize * 2\n", "DIR"))
+A(V("c04-rangeshift-formula", "C04", "ttLib/ttFont.py", "    rangeShift = max(0, n * itemSize - searchRange)\n", "    rangeShift = max(0, n * itemSize - searchRange - itemSize)\n", "DIR"))
+A(V("c06-markbase-rebase", "C06", "ttLib/tables/otTables.py", "            markRecord.Class -= oldClassCount\n", "            markRecord.Class -= newClassCount\n", "F23"))
+A(V("c06-markbase-count", "C06", "ttLib/tables/otTables.py", "    newClassCount = classCount - oldClassCount\n", "    newClassCount = classCount - oldClassCount - 1\n", "F23"))
+A(V("c15-eexec-feedback-plain", "C15", "misc/eexec.py", "    cipher = ((plain ^ (R >> 8))) & 0xFF\n    R = ((cipher + R) * 52845 + 22719) & 0xFFFF", "    cipher = ((plain ^ (R >> 8))) & 0xFF\n    R = ((plain + R) * 52845 + 22719) & 0xFFFF", "F22-eexec"))
+A(V("c15-eexec-benign-rename", "C15", "misc/eexec.py", "    plain = byteord(plain)\n    cipher = ((plain ^ (R >> 8))) & 0xFF\n    R = ((cipher + R) * 52845 + 22719) & 0xFFFF\n    return bytechr(cipher), R", "    p = byteord(plain)\n    c = (p ^ (R >> 8)) & 0xFF\n    newR = ((c + R) * 52845 + 22719) & 0xFFFF\n    return bytechr(c), newR", None, expect=0))
+A(V("c15-sbs-advance32", "C15", "misc/iftSparseBitSet.py", "            self.byteIndex += 4\n", "            self.byteIndex += 3\n", "SBS"))
+A(V("c15-sbs-wrap", "C15", "misc/iftSparseBitSet.py", "            if self.subIndex >= 8:\n                self.subIndex = 0\n                self.byteIndex += 1", "            if self.subIndex >= 7:\n                self.subIndex = 0\n                self.byteIndex += 1", "SBS"))
+A(V("c15-sstruct-iter-sorted", "C15", "misc/sstruct.py", "    for i, name in enumerate(names.keys()):", "    for i, name in enumerate(sorted(names.keys())):", "F22-sstruct"))
+A(V("c15-sstruct-fix-bits", "C15", "misc/sstruct.py", "            value = fi2fl(value, fixes[name])", "            value = fi2fl(value, fixes[name] + 1)", "F22-sstruct"))
+A(V("c03-src-cwd", "C03", "misc/xmlReader.py", "                dirname = os.path.dirname(self.file.name)\n", "                dirname = os.getcwd()\n", "F7i"))
